@@ -274,6 +274,10 @@ Note: An ecc structure repair does NOT allow to recover from more errors on your
                             marker_str = None
                             continue
                     if not marker_str: continue
+                    # A block that passes the ecc check may still not describe a marker of this ecc file (eg, a truncated last block is padded with null bytes by the ecc manager and can decode to null bytes): skip it too
+                    if len(marker_str) != ecc_params_idx["message_size"] or marker_str[0:1] not in (b'1', b'2') or struct.unpack('>Q', marker_str[1:])[0] + len(markers[int(marker_str[0:1])-1]) > ecc_size:
+                        ptee.write("\n- Index backup file: error on block starting at %i, it does not describe a marker of this ecc file. Skipping." % curpos)
+                        continue
 
                     # Repair ecc file's marker using our correct (or repaired) marker's infos
                     marker_type = int(chr(marker_str[0]) if isinstance(marker_str[0], int) else marker_str[0]) # marker's type is always stored on the first byte/character
